@@ -241,6 +241,12 @@ def run(eng, run):
     # after a parse error the consumer is reusable: the finished / dead parser never stays parked (typestate shared with C10.parser)
     from rules.c10 import check_parser
     check_parser(eng, run, rule="C06.gen", dead_only=True)
+    # 'very long tokens up to the configured limit' end in a LimitOverrunError (a parse error), they do not grow the buffer for ever:
+    # the accumulation guards of C07; and bytes beyond the received length never take part in the parse (bounded reads of C02)
+    from rules import c02, c07
+    from sa.report import RuleAlias
+    c07.check_guard(eng, RuleAlias(run, "C06.lim"))
+    c02.check_bound(eng, RuleAlias(run, "C06.lim"))
     from sa.analyses.arms import check_handler_attrs
     from sa.analyses.escape import AttrResolver
     ar = AttrResolver(eng)
